@@ -183,4 +183,25 @@ come back: F32), the filters (own log, not held, accepted, signed), the merge wi
 only when the listing is longer than the limit -/
 theorem load_steps_tied_to_go_text : Gen.loadJoinOrder = Order.loadJoin := gen_loadJoin_order
 
+/-- **which cached heads a write keeps is decided on the log as it was BEFORE the append** (after the
+`fix:` commit, finding F49): a cached head the log did not hold then is kept — whatever a `Load` still
+running merges in the meantime — and one it held is named (through the heads) by the new entry.
+Deciding it afterwards dropped a head merged between the append and the look: held by then, but not
+named by the new entry (witness: cached head 5, log {1,2,3}; the write appends 6 on top of 3 while a
+load merges 5: looking afterwards keeps nothing, and nothing leads to 5 any more). -/
+theorem kept_heads_are_decided_before_the_append :
+    open LoadExample in
+    (afterSnapshot.addOp acl w6).1.localHeads = some [6, 5] ∧
+    keptHeads afterSnapshot.localHeads afterSnapshot.log = [5] ∧
+    keptHeads afterSnapshot.localHeads
+      { (afterSnapshot.addOp acl w6).1.log with
+          entries := (afterSnapshot.addOp acl w6).1.log.entries ++ [{ hash := 5, logId := 9, time := 5, cid := 0, next := [4] }] } = [] ∧
+    (w6 (appendTime afterSnapshot.log) (appendNext afterSnapshot.log)).next = [3] := by
+  decide
+
+/-- the order in the Go text of this run: the cached local heads are read (and the log looked at)
+before the append -/
+theorem kept_heads_before_append_tied_to_go_text : Gen.addOperationOrder = Order.addOperation :=
+  gen_addOperation_order
+
 end Orbit.C05
